@@ -48,6 +48,11 @@ fn operand(m: &Mon, r: &mut Rng) -> Vec<u64> {
     }
 }
 
+/// the sign bits of an infinitely sign-extended two's complement number
+fn na_nonzero(v: &BigInt) -> bool {
+    v.is_negative()
+}
+
 /// interesting bit positions / shift counts relative to a bit length
 fn pos(r: &mut Rng, bits: usize) -> usize {
     match r.below(12) {
@@ -225,7 +230,28 @@ fn case(m: &mut Mon, r: &mut Rng, _idx: u64) {
                 eq_u(&hi, &(&mua >> n), "split_bits.hi")?;
                 let mut t = x.clone();
                 t.clear_high_bits(n);
-                eq_u(&t, &(&mua & &lowmask), "clear_high_bits")
+                eq_u(&t, &(&mua & &lowmask), "clear_high_bits")?;
+                // positions at the very end of the usize range: all "infinitely many" zero bits above the value
+                let huge = usize::MAX - (h as usize % 130);
+                for hn in [huge, usize::MAX / 2 + (h as usize % 3), (1usize << 40) + (h as usize % 67)] {
+                    let res = catch(|| {
+                        let (lo, hi) = x.clone().split_bits(hn);
+                        let mut t = x.clone();
+                        t.clear_high_bits(hn);
+                        let mut c = x.clone();
+                        c.clear_bit(hn);
+                        (lo, hi, t, c, x.bit(hn), xi.bit(hn), &x >> hn, &xi >> hn)
+                    })
+                    .or_else(|p| fail("unexpected_panic", format!("bit position {}: {}", hn, p)))?;
+                    eq_u(&res.0, &mua, "split_bits(huge).lo")?;
+                    ensure!(res.1.is_zero(), "value", "split_bits({}).hi = {}", hn, show_u(&res.1));
+                    eq_u(&res.2, &mua, "clear_high_bits(huge)")?;
+                    eq_u(&res.3, &mua, "clear_bit(huge)")?;
+                    ensure!(!res.4 && res.5 == na_nonzero(&mia), "value", "bit({}) = {} / {} for a value of sign {}", hn, res.4, res.5, if mia.is_negative() { '-' } else { '+' });
+                    ensure!(res.6.is_zero(), "value", "ubig >> {} = {}", hn, show_u(&res.6));
+                    eq_i(&res.7, &if mia.is_negative() { BigInt::from(-1) } else { BigInt::zero() }, "ibig >> huge")?;
+                }
+                Ok(())
             });
         }
         10 | 11 => {
